@@ -29,6 +29,13 @@ CHECKS = {
     design_ref="DESIGN.md section 4"),
   level_note="Trusted: cairo-vm as judge of invalid executions; the honest hint code as reference; entry code in the runner's testing configuration. Later hints are honest relative to the state the lie produced. Functions returning pointers are skipped and listed in the evidence.",
   technique="deterministic simulation with fault injection (seeded/enumerated dishonest-prover hint faults against the real VM)"),
+"C12": dict(
+  engine="simdb",
+  level_claimed=dict(category="exploration",
+    text="Deterministic simulation of the build driver and of the thread pool around the real compiler: each run compiles a corpus project (repo examples crate, tests/bug_samples, starknet cairo_level_tests, three local templates incl. a contract) through the real entry points after a PRNG history prefix of unrelated queries (module diagnostics, lowering, Sierra of other function subsets, queries on dropped snapshots, edit-then-exact-revert, corelib first), under a drawn hash seed (H2 seam) and a simulated worker count in {1,2,3,4,8,16}. Level 1 (plain salsa): the H1 seam hands every rayon task to an executor that runs the tasks of each batch atomically in a PRNG order. Level 2 (salsa built with its shuttle feature): tasks run on a simulated worker pool of shuttle threads and shuttle's seeded random/PCT scheduler decides every interleaving at salsa's synchronisation points (query claims, blocking, interning). Oracle: id-normalised Sierra (debug names and canonical ids), annotations, diagnostics and contract-class JSON byte-identical to the plainest execution. Seeded search over schedules and histories; violations are minimised (prefix ddmin, fewer workers) and replayed in a fresh process.",
+    design_ref="DESIGN.md section 5"),
+  level_note="Level 2 interleaves only at salsa's synchronisation points (shuttle models SeqCst); level 1 tasks are atomic. Rayon's work-stealing is replaced by a simpler pool with the same task set. Raw (unreplaced) interned ids are expected to differ and are used as the reach measure; annotation maps keyed by raw ids are re-keyed by debug name before comparison.",
+  technique="deterministic simulation with fault injection (seeded task-order / shuttle schedules and query-history prefixes on the real salsa database)"),
 "C13": dict(
   engine="simdb",
   level_claimed=dict(category="exploration",
